@@ -3,6 +3,8 @@ import itertools
 import hashlib
 import os.path
 import inspect
+import tempfile
+import types
 from importlib.machinery import SourceFileLoader
 
 
@@ -150,20 +152,32 @@ def unpack_impl(pkt, raw, offset, **k):
         # Full path for the new module
         module_pathname = os.path.join(folder, module_name + ".py")
 
+        def load_cached_module():
+            # A truncated or corrupted cache file (a writer that died, a file
+            # from another version) must not break the definition of the
+            # class: any failure to import it means "no usable cache".
+            try:
+                return SourceFileLoader(module_name,
+                                        module_pathname).load_module()
+            except Exception:
+                return None
+
+        def is_ours(module):
+            # The cookie is the hash of our pack/unpack code (and it is the
+            # last thing written): if it matches, the code is ours
+            return module is not None and \
+                    getattr(module, 'BISTURI_PACKET_COOKIE', None) == cookie and \
+                    (not self.generate_for_pack or hasattr(module, 'pack_impl')) and \
+                    (not self.generate_for_unpack or hasattr(module, 'unpack_impl'))
+
         # Try to import it first, if exists
         module = None
         if os.path.exists(module_pathname):
-            try:
-                module = SourceFileLoader(module_name,
-                                          module_pathname).load_module()
-            except ImportError:
-                pass
+            module = load_cached_module()
 
         # If no previously written module exists or its cooke does not match
         # ours, recreate the file and reload it
-        if not module or getattr(
-            module, 'BISTURI_PACKET_COOKIE', None
-        ) != cookie:
+        if not is_ours(module):
             # Delete the compiled file (.pyc)
             if module and hasattr(module, '__cached__'):
                 module_compiled_filename = module.__cached__
@@ -176,15 +190,33 @@ def unpack_impl(pkt, raw, offset, **k):
             # creates folder to host our generated code
             os.makedirs(folder, exist_ok=True)
 
-            with open(module_pathname, 'w') as module_file:
+            # Write the code to a private temporary file and publish it
+            # atomically: other processes defining this class see the old
+            # file or the new one, never a partially written one.
+            fd, tmp_pathname = tempfile.mkstemp(
+                dir=folder, prefix=module_name + '.', suffix='.tmp'
+            )
+            with os.fdopen(fd, 'w') as module_file:
                 module_file.write(import_code)
-                module_file.write(cookie_code)
                 module_file.write(pack_code)
                 module_file.write(unpack_code)
+                module_file.write(cookie_code)
+
+            os.replace(tmp_pathname, module_pathname)
 
             # load it (again)
-            module = SourceFileLoader(module_name,
-                                      module_pathname).load_module()
+            module = load_cached_module()
+            if not is_ours(module):
+                # Someone else replaced the file in the meantime (a class
+                # with the same name and another declaration): do not use
+                # the cache, run our own code.
+                module = types.ModuleType(module_name)
+                exec(
+                    compile(
+                        import_code + pack_code + unpack_code + cookie_code,
+                        module_pathname, 'exec'
+                    ), module.__dict__
+                )
 
         from bisturi.packet import Packet
         if self.generate_for_pack and (
